@@ -214,10 +214,61 @@ func (Engine) RunOne(t *core.Tape, prop, tier string, info *core.RunInfo) *core.
 	for _, b := range encTouched {
 		anyEncTouched = anyEncTouched || b
 	}
+	// a dealer that posts, in the slot of trustee `to`, a SECOND COPY of the share of trustee `from`
+	// (index from, encrypted under from's key, with a valid proof for that key), the collective
+	// challenge computed over the list as posted. Trustee `to` cannot decrypt anything: the slot must
+	// not be in the batch result, whichever way the verifier derives the commitments - by position
+	// or from the index that each posted share carries (seed C13f: the batch verifier looked the key
+	// up by the share's index and reported `to`'s key as served).
+	dupTo, shByIndex := -1, false
+	if !honestClass && !anyEncTouched && n >= 2 && t.Bool("byz.dealer2", 100) {
+		from := t.Intn("byz.dealer2", n)
+		to := (from + 1 + t.Intn("byz.dealer2", n-1)) % n
+		shByIndex = t.Bool("byz.dealer2", 600)
+		stream := suite.XOF(t.Bytes("byz.val", 32))
+		pri := share.NewPriPoly(suite, uint32(th), secret, stream)
+		ps := pri.Shares(uint32(n))
+		pp := pri.Commit(H)
+		xG, xH, vG, vH := make([]kyber.Point, n), make([]kyber.Point, n), make([]kyber.Point, n), make([]kyber.Point, n)
+		vs := make([]kyber.Scalar, n)
+		src := make([]int, n)
+		for k := 0; k < n; k++ {
+			src[k] = k
+			if k == to {
+				src[k] = from
+			}
+			xG[k] = g.Point().Mul(ps[k].V, H) // what the challenge covers: the commitments by position
+			xH[k] = g.Point().Mul(ps[src[k]].V, X[src[k]])
+			vs[k] = g.Scalar().Pick(stream)
+			vG[k] = g.Point().Mul(vs[k], H)
+			vH[k] = g.Point().Mul(vs[k], X[src[k]])
+		}
+		hs := suite.Hash()
+		for _, l := range [][]kyber.Point{xG, xH, vG, vH} {
+			for _, p := range l {
+				_, _ = p.MarshalTo(hs)
+			}
+		}
+		c := g.Scalar().Pick(suite.XOF(hs.Sum(nil)))
+		for k := 0; k < n; k++ {
+			r := g.Scalar().Sub(vs[k], g.Scalar().Mul(ps[src[k]].V, c))
+			posted[k] = &pvss.PubVerShare{S: share.PubShare{I: uint32(src[k]), V: xH[k]}, P: dleq.Proof{C: c, R: r, VG: vG[k], VH: vH[k]}}
+			sH[k] = xG[k]
+		}
+		pubPoly = pp
+		dupTo = to
+		anyEncTouched = true
+		info.ByzFired("dealer:slot-holds-a-copy-of-another-trustees-share")
+	}
 	// the (possibly altered) commitments are what everybody evaluates
 	sHp := make([]kyber.Point, n)
+	postedIdx := make([]uint32, n)
 	for i := range sHp {
 		sHp[i] = pubPoly.Eval(uint32(i)).V
+		if shByIndex && int(posted[i].S.I) < n {
+			sHp[i] = pubPoly.Eval(posted[i].S.I).V
+		}
+		postedIdx[i] = posted[i].S.I
 	}
 	var K []kyber.Point
 	var E []*pvss.PubVerShare
@@ -236,8 +287,33 @@ func (Engine) RunOne(t *core.Tape, prop, tier string, info *core.RunInfo) *core.
 	}
 	for _, e := range E {
 		i := int(e.S.I)
-		if i < n && (encTouched[i] || (commitTouched && !sHp[i].Equal(sH[i]))) {
+		if i < n && dupTo < 0 && (encTouched[i] || (commitTouched && !sHp[i].Equal(sH[i]))) {
 			return viol("enc-verify", "altered-enc-share-accepted/"+gname, "encrypted share %d was altered (or its commitment was) but is in the batch result", i)
+		}
+	}
+	if dupTo >= 0 {
+		// the result pairs every accepted share with the key of the trustee who can decrypt it, and
+		// no index occurs twice; the trustee of the slot with the copy has nothing to decrypt
+		seen := map[uint32]bool{}
+		for k, e := range E {
+			if k < len(K) && int(e.S.I) < n && !K[k].Equal(X[e.S.I]) {
+				return viol("enc-verify", "batch-result-pairs-share-with-another-key/"+gname, "the dealer put a copy of trustee %d's share into slot %d: the batch result reports the share with index %d as valid for another trustee's key (commitments derived by index: %v)", e.S.I, dupTo, e.S.I, shByIndex)
+			}
+			if seen[e.S.I] {
+				return viol("enc-verify", "batch-result-holds-an-index-twice/"+gname, "the dealer put a copy of trustee %d's share into slot %d: the batch result holds index %d twice (commitments derived by index: %v)", e.S.I, dupTo, e.S.I, shByIndex)
+			}
+			seen[e.S.I] = true
+		}
+		if len(E) != n-1 || len(K) != n-1 {
+			return viol("enc-verify", "batch-result-size/"+gname, "dealing with one slot holding a copy of another trustee's share: %d shares and %d keys in the batch result, want %d (commitments derived by index: %v)", len(E), len(K), n-1, shByIndex)
+		}
+		enc := cpShare(g, posted[dupTo])
+		var derr error
+		if pn := core.Guard(func() { _, derr = pvss.DecShare(suite, H, X[dupTo], sHp[dupTo], xs[dupTo], enc.P.C, enc) }); pn != nil {
+			return viol("totality", "decshare-panic/"+gname, "DecShare panicked: %v | %s", pn, core.LastStack())
+		}
+		if derr == nil {
+			return viol("enc-verify", "share-of-other-trustee-decrypted/"+gname, "trustee %d accepted and decrypted the copy of another trustee's share", dupTo)
 		}
 	}
 	{
@@ -276,7 +352,7 @@ func (Engine) RunOne(t *core.Tape, prop, tier string, info *core.RunInfo) *core.
 		}
 		// and the posted shares of the first dealing are still the ones that were posted
 		for i, e := range posted {
-			if int(e.S.I) != i {
+			if e.S.I != postedIdx[i] {
 				return viol("enc-verify", "batch-verification-reordered-its-input/"+gname, "after VerifyEncShareBatch the caller's slot %d holds the share of trustee %d", i, e.S.I)
 			}
 		}
